@@ -513,6 +513,13 @@ def check_heap(rep, repo: Repo, pre: str = "") -> None:
         rep.fn(pre + "H6-guard", w.entry, f"{name} changes state only when not {test}()", not unguarded and bool(eff),
                f"{len(unguarded)} effect(s) outside the capacity guard: "
                + "; ".join(e.text() for e in unguarded[:3]))
+        for e in eff:
+            extra = [f for f in facts(e.guards) if f != guard]
+            allowed = e.kind == "call" and e.name == "go_down" and all(
+                f in (("cmp", "<", ("const", 0), LAST), ("cmp", "<=", ("const", 1), LAST)) for f in extra)
+            rep.ev(pre + "H6-exact-guard", e, not extra or allowed,
+                   "" if not extra or allowed else f"{name} performs this step only when '{show(extra[0])[:80]}': on the other "
+                   "inputs the heap is left in an inconsistent / unsifted state")
         fails = [e for e in w.events if e.kind == "return" and has_guard(e.guards, mk_not(guard))]
         okr = len(fails) == 1 and fails[0].value in (("const", False), ("const", None), ("const", 0))
         rep.fn(pre + "H6-fail", w.entry, f"{name} reports failure when {test}()", okr,
